@@ -196,6 +196,17 @@ func c07Directed(r *wk.Rand) [][]c07Item {
 			}
 		}
 	}
+	// a work-start whose input the step refuses, then valid signals for that run ID (the step was never called, so
+	// nothing must wait for it to start), then the end - with and without a run that did start in between
+	for i, bad := range []any{map[string]any{"n": "x"}, "scalar", nil, map[string]any{"nonce": "r", "zzz": 1}} {
+		run := fmt.Sprintf("rej%d", i)
+		rej := c07Item{kind: "workstart", bytes: c07WorkStart(run, "sig", bad), run: run, step: "sig"}
+		sig := c07Item{kind: "signal", bytes: c07Signal(run, "record", map[string]any{"v": int64(1)}), run: run}
+		out = append(out, []c07Item{startItem, rej, sig, done})
+		out = append(out, []c07Item{startItem, rej, sig})
+		out = append(out, []c07Item{startItem, rej, sig, sig, ws(run+"-ok", "sig", "ok"), sig, done})
+		out = append(out, []c07Item{startItem, sig, rej, ws(run+"-g", "echo", "gated"), sig, done})
+	}
 	// the same run ID twice; unknown message ID; unknown step; many failing steps at once
 	out = append(out, []c07Item{startItem, ws("dup", "echo", "ok"), ws("dup", "echo", "ok")})
 	out = append(out, []c07Item{startItem, ws("dup2", "echo", "gated"), ws("dup2", "echo2", "gated"), done})
